@@ -5,11 +5,17 @@ import argparse, hashlib, importlib, json, multiprocessing as mp, os, re, subpro
 
 VERIF = os.path.dirname(os.path.dirname(os.path.abspath(__file__)))
 
-# property -> contract modules (sidecar), extra engines
-PROPS = {
-    "C12": dict(modules=["contracts.c12_simplify"]),
-    "C13": dict(modules=["contracts.c13_range"]),
-}
+def discover(prop):
+    """Contract modules of a property are the files contracts/<prop lower>_*.py.
+    A module may define ENGINES = ["pkg.mod:function", ...] (extra engines such
+    as the ownership analysis or the C-helper VC; each returns a result dict) and
+    ASSUMPTIONS = [...] (strings copied into the evidence file)."""
+    import glob
+    mods = sorted(os.path.basename(p)[:-3] for p in
+                  glob.glob(os.path.join(VERIF, "contracts", prop.lower() + "_*.py")))
+    if not mods:
+        return None
+    return dict(modules=["contracts." + m for m in mods])
 
 GLOBAL_ASSUMPTIONS = [
     "pyvc's model of the Python subset agrees with CPython (mitigated by the concrete cross-check; not proved)",
@@ -86,10 +92,10 @@ def main(argv):
 
 def run_property(args):
     prop = args.prop
-    if prop not in PROPS:
+    spec = discover(prop)
+    if spec is None:
         print(f"unknown or unclaimed property {prop}")
         return 3
-    spec = PROPS[prop]
     tier = "thorough" if args.tier == "thorough" else "quick"
     seed = int(os.environ.get("VERIF_SEED", "0") or 0)
     t0 = time.time()
@@ -98,12 +104,22 @@ def run_property(args):
     ensure_repo_on_path()
     from pyvc.contract import REGISTRY
     mod_of = {}
+    spec.setdefault("engines", [])
+    spec.setdefault("assumptions", [])
     for m in spec.get("modules", []):
         before = set(REGISTRY)
-        importlib.import_module(m)
+        mod = importlib.import_module(m)
+        spec["engines"] += list(getattr(mod, "ENGINES", []))
+        spec["assumptions"] += list(getattr(mod, "ASSUMPTIONS", []))
         for cid in REGISTRY:
-            if cid not in before or REGISTRY[cid].module is None and cid not in mod_of:
+            if cid not in before:
                 mod_of.setdefault(cid, m)
+    # contracts registered by modules that this property's modules import
+    # (shared helpers) belong to their own property
+    for cid, c in REGISTRY.items():
+        if c.prop == prop and cid not in mod_of:
+            mod_of[cid] = sys.modules[c.__dict__.get("defined_in", spec["modules"][0])].__name__ \
+                if c.__dict__.get("defined_in") else spec["modules"][0]
     cids = [cid for cid, c in REGISTRY.items() if c.prop == prop and cid in mod_of]
     if args.only:
         cids = [c for c in cids if args.only in c]
